@@ -3,6 +3,7 @@ package harness
 import (
 	"context"
 	"fmt"
+	"strings"
 
 	"github.com/jhump/grpctunnel"
 	"github.com/jhump/grpctunnel/tunnelpb"
@@ -15,10 +16,14 @@ type overrun struct {
 	delta    int    // bytes beyond the window
 	place    string // envelope | continuation | newmsg
 	consumed int    // 16 KiB frames the application consumed (and were credited) before
+	// peerWin is the window the misbehaving peer announces for ITS OWN receiving direction
+	// (new_stream.initial_window_size resp. settings.initial_window_size); it must have no
+	// influence on the window the real endpoint enforces for what it receives
+	peerWin uint32
 }
 
 func (o overrun) String() string {
-	return fmt.Sprintf("delta=%d/%s/consumed=%d", o.delta, o.place, o.consumed)
+	return fmt.Sprintf("delta=%d/%s/consumed=%d/peerwin=%d", o.delta, o.place, o.consumed, o.peerWin)
 }
 
 // overrunPlan returns the data frames (as (first, size, len) triples) that fill the window
@@ -90,9 +95,16 @@ func c06Scenarios(tier string) []*Scenario {
 	for _, d := range []int{1, 16384, 3 * 65536} {
 		for _, p := range []string{"envelope", "continuation", "newmsg"} {
 			for _, k := range []int{0, 1, 4} {
-				ovs = append(ovs, overrun{d, p, k})
+				ovs = append(ovs, overrun{d, p, k, 65536})
 			}
+			ovs = append(ovs, overrun{d, p, 0, 1 << 24}, overrun{d, p, 0, 1024})
 		}
+	}
+	// a peer that stays exactly within the 64 KiB window must never be refused, whatever window
+	// it announces for its own direction
+	for _, pw := range []uint32{65536, 1024, 1 << 24} {
+		o := overrun{0, "continuation", 0, pw}
+		ovs = append(ovs, o)
 	}
 	for _, o := range ovs {
 		o := o
@@ -146,7 +158,7 @@ func c06Scenarios(tier string) []*Scenario {
 						}
 					}
 					pre, fill, over := overrunPlan(o, 0)
-					_ = rc.Send(fNew(1, "/verif.T/Bidi", 1, 65536, "s1"))
+					_ = rc.Send(fNew(1, "/verif.T/Bidi", 1, o.peerWin, "s1"))
 					_ = rc.Send(fNew(2, "/verif.T/Bidi", 1, 65536, "s2"))
 					send(1, pre)
 					if o.consumed > 0 {
@@ -193,6 +205,13 @@ func c06Scenarios(tier string) []*Scenario {
 				if fin != "EOF" {
 					bad("overrun-fails-only-that-rpc", "overrun:tunnel-killed", fmt.Sprintf("the tunnel ended with %v", rc.Final))
 				}
+				if o.delta == 0 {
+					// exactly one window: must be accepted (the stream stays open until the peer hangs up)
+					if len(cl1) == 1 && codes.Code(cl1[0].GetStatus().GetCode()) == codes.ResourceExhausted {
+						bad("window-is-what-was-advertised", "overrun:refused-within-window", "a peer that sent exactly the advertised 64 KiB was refused with ResourceExhausted")
+					}
+					return vs
+				}
 				if len(cl1) == 0 && !hung {
 					bad("overrun-fails-that-rpc", "overrun:no-close", "the overrunning stream was never closed")
 				}
@@ -222,7 +241,7 @@ func c06Scenarios(tier string) []*Scenario {
 					return ""
 				})
 				n := w.NewRawServerNet("T", true, func(c *RawServerConn) error {
-					_ = c.Send(fSettings(-1, 65536, 0, 1))
+					_ = c.Send(fSettings(-1, o.peerWin, 0, 1))
 					ids := map[string]int64{}
 					for len(ids) < 2 {
 						m, err := c.RecvUntil(func(m *tunnelpb.ClientToServer) bool { return m.GetNewStream() != nil })
@@ -278,6 +297,13 @@ func c06Scenarios(tier string) []*Scenario {
 				}
 				r1.Ops = append(r1.Ops, COp{K: "waitdone"}, COp{K: "recvall"})
 				r2 := CallSpec{ID: "r2", Tag: 2, Method: "Bidi", Ops: []COp{{K: "new"}, {K: "recvall"}}}
+				if o.delta == 0 {
+					// nothing ends r1 by itself: give it up once nothing else can happen
+					w.GoLow("fault:giveup", func() {
+						w.WaitUntil("giveup", func() bool { return w.cancelOf("r1") != nil })
+						w.cancelOf("r1")()
+					})
+				}
 				t1 := w.Go("caller:r1", true, func() { w.RunCall(ch, &r1) })
 				w.WaitUntil("r1-started", func() bool {
 					for _, e := range w.Events {
@@ -311,7 +337,11 @@ func c06Scenarios(tier string) []*Scenario {
 						break
 					}
 				}
-				if term == nil {
+				if o.delta == 0 {
+					if term != nil && term.Code == "ResourceExhausted" {
+						bad("window-is-what-was-advertised", "overrun:client-refused-within-window", "a peer that sent exactly the advertised 64 KiB was refused with ResourceExhausted")
+					}
+				} else if term == nil {
 					bad("overrun-fails-that-rpc", "overrun:client-no-terminal-result", "r1 never got a terminal result")
 				} else if term.Code != "ResourceExhausted" {
 					bad("overrun-fails-that-rpc", "overrun:client-wrong-code:"+term.Code, fmt.Sprintf("r1 ended with %s(%s)", term.Code, term.Err))
@@ -337,6 +367,25 @@ func c06Scenarios(tier string) []*Scenario {
 	// the invariant is a property of real senders and receivers under every workload: the
 	// flow-control workloads of C05 and the multi-RPC workloads of C01 are re-run here with
 	// only the window and protocol monitors as oracles
+	for _, sc := range c05Scenarios(tier) {
+		if !strings.HasPrefix(sc.Name, "c05/core/sender") {
+			continue
+		}
+		c := *sc
+		orig := sc.Check
+		c.Name, c.Prop = "c06/union/"+sc.Name, "C06"
+		c.Check = func(w *World, x *Exec) []Violation {
+			var vs []Violation
+			for _, v := range orig(w, x) {
+				if strings.Contains(v.Sig, "sent-more-than-credit") || strings.Contains(v.Sig, "sent-without-credit") || strings.Contains(v.Sig, "chunk-too-large") {
+					v.Prop = "C06"
+					vs = append(vs, v)
+				}
+			}
+			return vs
+		}
+		scs = append(scs, &c)
+	}
 	scs = append(scs, monitorOnly("c06/union/", "C06", c05TunnelScenarios(tier))...)
 	scs = append(scs, monitorOnly("c06/union/", "C06", c01M2(tier))...)
 	return scs
